@@ -287,8 +287,66 @@ func (g *Gen) likeSmall() {
 	}
 }
 
+// likeExhaustive: every pattern of up to 3 (4 thorough) characters over {a, A, b, %, .} against a column
+// holding every string of up to 2 characters over {a, A, b}, some longer ones, "" and null - as a string
+// column, a derived enum and a declared enum - under like and ilike
+func (g *Gen) likeExhaustive() {
+	alpha := []string{"a", "A", "b", "%", "."}
+	cellAlpha := []string{"a", "A", "b"}
+	cells := []*BS{nil, bsp("")}
+	var words []string
+	for _, x := range cellAlpha {
+		words = append(words, x)
+		for _, y := range cellAlpha {
+			words = append(words, x+y)
+		}
+	}
+	words = append(words, "aab", "aba", "Abb", "bAa", "abA")
+	decl := []string{"unused"}
+	for _, w := range words {
+		cells = append(cells, bsp(w))
+		decl = append(decl, w)
+	}
+	decl = append(decl, "")
+	pats := []string{""}
+	frontier := []string{""}
+	for l := 1; l <= g.pick(3, 4); l++ {
+		next := []string{}
+		for _, p := range frontier {
+			for _, a := range alpha {
+				next = append(next, p+a)
+			}
+		}
+		pats = append(pats, next...)
+		frontier = next
+	}
+	per := 12
+	for i := 0; i < len(pats); i += per {
+		g.begin("like exhaustive")
+		f := g.do(Step{Op: "New", Recv: -1, HasOrder: true, ColOrder: bsList([]string{"S", "X", "D"}), HasEnums: true,
+			Enums: []EnumDecl{{Name: toBS("X"), Vals: nil}, {Name: toBS("D"), Vals: bsList(decl)}},
+			Data:  []ColData{{Name: toBS("S"), Kind: "string", Strs: cells}, {Name: toBS("X"), Kind: "string", Strs: cells}, {Name: toBS("D"), Kind: "string", Strs: cells}}})
+		for _, p := range pats[i:minI(i+per, len(pats))] {
+			for _, cmp := range []string{"like", "ilike"} {
+				col := []string{"S", "X", "D"}[g.rng.Intn(3)]
+				if g.thorough() {
+					for _, c := range []string{"S", "X", "D"} {
+						cl := Clause{K: "leaf", Col: toBS(c), CmpK: "str", Cmp: cmp, Arg: &Val{T: "string", S: toBS(p)}}
+						g.do(Step{Op: "Filter", Recv: f, Clause: &cl})
+					}
+					continue
+				}
+				cl := Clause{K: "leaf", Col: toBS(col), CmpK: "str", Cmp: cmp, Arg: &Val{T: "string", S: toBS(p)}}
+				g.do(Step{Op: "Filter", Recv: f, Clause: &cl})
+			}
+		}
+		g.end()
+	}
+}
+
 func genC18(g *Gen) {
 	g.likeSmall()
+	g.likeExhaustive()
 	for rep := 0; rep < g.pick(60, 1500); rep++ {
 		n := []int{1, 3, 8, 20, 60}[g.rng.Intn(5)]
 		pool := []string{}
